@@ -4,6 +4,7 @@ import (
 	"crypto/sha256"
 	"fmt"
 	"math/big"
+	"os"
 	"strings"
 	"time"
 
@@ -170,11 +171,15 @@ func (g *Gen) nearBoundaryPut() *eng.Tx {
 			if b.StartDate == nil {
 				continue
 			}
-			d := b.StartDate.AsTime().Sub(min)
-			if d < 0 {
-				d = -d
+			if cl := g.V.ClassOfBatch(b); cl == nil || !g.V.BasketClasses[bk.Id][cl.Id] || cl.CreditTypeAbbrev != bk.CreditTypeAbbrev {
+				continue
 			}
-			if d <= time.Second {
+			// (time comparisons, not Sub: a Duration saturates beyond ~292 years)
+			st := b.StartDate.AsTime()
+			if !st.Before(min) && !st.After(min.Add(time.Second)) {
+				cs = append(cs, cand{bk, b.Denom, b.Key})
+				cs = append(cs, cand{bk, b.Denom, b.Key}) // at-or-after candidates twice as likely
+			} else if st.Before(min) && !st.Before(min.Add(-time.Second)) {
 				cs = append(cs, cand{bk, b.Denom, b.Key})
 			}
 		}
@@ -183,10 +188,16 @@ func (g *Gen) nearBoundaryPut() *eng.Tx {
 		return nil
 	}
 	c := cs[g.R.Intn(len(cs))]
+	if os.Getenv("VERIF_DEBUG") != "" && c.bk.DateCriteria.StartDateWindow != nil {
+		fmt.Printf("# DEBUG nearBoundaryPut window candidate %s %s now=%s\n", c.bk.BasketDenom, c.denom, g.Now)
+	}
 	for _, a := range g.A {
 		t, _, _ := g.V.BalOf(a, c.key)
 		if t.Sign() > 0 {
-			return tx(&baskettypes.MsgPut{Owner: a, BasketDenom: c.bk.BasketDenom, Credits: []*baskettypes.BasketCredit{{BatchDenom: c.denom, Amount: g.amountUpTo(new(big.Rat).Quo(t, big.NewRat(4, 1)))}}})
+			g.quiet = true
+			amt := g.amountUpTo(new(big.Rat).Quo(t, big.NewRat(4, 1)))
+			g.quiet = false
+			return tx(&baskettypes.MsgPut{Owner: a, BasketDenom: c.bk.BasketDenom, Credits: []*baskettypes.BasketCredit{{BatchDenom: c.denom, Amount: amt}}})
 		}
 	}
 	return nil
@@ -345,11 +356,13 @@ func (g *Gen) genTake() *eng.Tx {
 		as = []string{"0", "-1", "1.5", "1e3", ""}[g.R.Intn(5)]
 	}
 	retire := !bk.DisableAutoRetire || g.chance(0.4)
-	if g.hostile() && g.chance(0.3) {
+	flipped := false
+	if g.hostile() && g.chance(0.4) {
 		retire = !retire
+		flipped = true
 	}
 	m := &baskettypes.MsgTake{Owner: g.owner(owner), BasketDenom: bk.BasketDenom, Amount: as, RetireOnTake: retire}
-	if retire || g.chance(0.2) {
+	if retire || g.chance(0.2) || (flipped && g.chance(0.6)) {
 		if g.chance(0.5) {
 			m.RetirementJurisdiction = g.jurisdiction()
 		} else {
@@ -547,6 +560,11 @@ func (g *Gen) genUpdateSell() *eng.Tx {
 					break
 				}
 			}
+		} else if g.chance(0.3) {
+			// a later entry naming SOMEONE ELSE's order (must be rejected)
+			if o2 := g.order(); o2 != nil {
+				o = o2
+			}
 		}
 	}
 	if g.hostile() && g.chance(0.2) {
@@ -564,7 +582,17 @@ func (g *Gen) genCancelSell() *eng.Tx {
 	if g.hostile() && g.chance(0.2) {
 		id += 1000
 	}
-	return tx(&markettypes.MsgCancelSellOrder{Seller: g.owner(obs.Addr(o.Seller)), SellOrderId: id})
+	signer := g.owner(obs.Addr(o.Seller))
+	if signer != obs.Addr(o.Seller) && g.chance(0.6) {
+		// a wrong signer who has escrowed credits of the same batch (another seller of that batch)
+		for _, o2 := range g.V.OrderList {
+			if o2.BatchKey == o.BatchKey && obs.Addr(o2.Seller) != obs.Addr(o.Seller) {
+				signer = obs.Addr(o2.Seller)
+				break
+			}
+		}
+	}
+	return tx(&markettypes.MsgCancelSellOrder{Seller: signer, SellOrderId: id})
 }
 
 func (g *Gen) feeRate(s string) *big.Rat {
